@@ -126,7 +126,8 @@ LIB: Dict[str, Dict[str, Any]] = {
 }
 
 EXC_NAMES = {"value": "ValueError", "runtime": "RuntimeError", "keyboard": "KeyboardInterrupt", "abort": "VVerifAbort",
-             "value_empty": "ValueError", "keyboard_empty": "KeyboardInterrupt", "assert_empty": "AssertionError"}
+             "value_empty": "ValueError", "keyboard_empty": "KeyboardInterrupt", "assert_empty": "AssertionError",
+             "key_empty": "KeyError", "key_tuple": "KeyError", "os_empty": "OSError", "args_two": "RuntimeError", "system_exit": "SystemExit"}
 
 
 def _assert_float(value):
@@ -239,10 +240,21 @@ def _leaf(fn, *args):
         raise MFail("PROCESSOR", type(exc).__name__, str(exc))
 
 
+def real_values(spec: Dict[str, Any]) -> List[Any]:
+    """The sequence as handed to semantiva: numpy scalars when the case says so (only possible through the Python API)."""
+    if spec.get("np"):
+        import numpy as _np
+
+        return [getattr(_np, spec["np"])(x) for x in spec["values"]]
+    return list(spec["values"])
+
+
 # ---- sweeps (C03 reference expander) --------------------------------------------------------------
 def materialise(var: Dict[str, Any], resolved: Dict[str, Any]) -> List[Any]:
     k = var["kind"]
     if k == "values":
+        if var.get("np") == "int64":
+            return [int(x) for x in var["values"]]  # numpy integers behave as Python ints
         return list(var["values"])
     if k == "ctx":
         v = resolved[var["key"]][0]
@@ -345,7 +357,31 @@ def render(v: Any) -> str:
         if v["t"] == "FloatDataType":
             return f"FloatDataType({v['v']})"
         return f"{v['t']}([" + ", ".join(f"FloatDataType({x})" for x in v["v"]) + "])"
+    if isinstance(v, (dict, list, tuple)) and _holds_data(v):
+        # containers print their items with repr(); data objects inside print as Class(value) there too
+        if isinstance(v, dict):
+            return "{" + ", ".join(f"{k!r}: {_render_item(x)}" for k, x in v.items()) + "}"
+        inner = ", ".join(_render_item(x) for x in v)
+        return "[" + inner + "]" if isinstance(v, list) else "(" + inner + ("," if len(v) == 1 else "") + ")"
     return str(v)
+
+
+def _is_data(v: Any) -> bool:
+    return isinstance(v, dict) and set(v) <= {"t", "v"} and "t" in v and isinstance(v["t"], str)
+
+
+def _holds_data(v: Any) -> bool:
+    if _is_data(v):
+        return True
+    if isinstance(v, dict):
+        return any(_holds_data(x) for x in v.values())
+    if isinstance(v, (list, tuple)):
+        return any(_holds_data(x) for x in v)
+    return False
+
+
+def _render_item(v: Any) -> str:
+    return render(v) if (_is_data(v) or (isinstance(v, (dict, list, tuple)) and _holds_data(v))) else repr(v)
 
 
 def _elem_apply(name: str, base: Dict[str, Any], d: float, vals: Dict[str, Any], ctx: Dict[str, Any]) -> Any:
@@ -440,7 +476,7 @@ def _apply_sweep(desc, node, data, ctx, vals) -> Tuple[Dict[str, Any], bool]:
     base = LIB[name]
     resolved = {k: (v, None, None) for k, v in vals.items()}
     seqs = {v: materialise(spec, resolved) for v, spec in sw["vars"].items()}
-    approx = any(spec["kind"] == "range" for spec in sw["vars"].values())
+    approx = any(spec["kind"] == "range" or spec.get("np") for spec in sw["vars"].values())
     steps = sweep_steps(seqs, sw.get("mode", "combinatorial"), bool(sw.get("broadcast", False)))
     ctx_keys = {spec["key"] for spec in sw["vars"].values() if spec["kind"] == "ctx"}
     base_kwargs = {k: v for k, v in vals.items() if k in {n for n, _ in base["params"]} and k not in sw.get("params", {})}
@@ -475,14 +511,18 @@ def to_config(case: Dict[str, Any]) -> List[Dict[str, Any]]:
     for node in case["nodes"]:
         cfg: Dict[str, Any] = {"processor": node["p"]}
         if node.get("params"):
-            cfg["parameters"] = copy.deepcopy(node["params"])
+            # "$key:true" / "$key:0" stand for the non-string mapping keys YAML produces for `on:` / `0:`
+            cfg["parameters"] = {({"$key:true": True, "$key:false": False, "$key:0": 0}.get(k, k) if isinstance(k, str) else k): v
+                                 for k, v in copy.deepcopy(node["params"]).items()}
         if node.get("context_key") is not None:
             cfg["context_key"] = node["context_key"]
         sw = node.get("sweep")
         if sw:
             variables = {}
             for v, spec in sw["vars"].items():
-                if spec["kind"] == "values":
+                if spec["kind"] == "values" and spec.get("np"):
+                    variables[v] = {"values": real_values(spec)}
+                elif spec["kind"] == "values":
                     if spec.get("form") == "list" and len(spec["values"]) != 2:
                         variables[v] = list(spec["values"])  # bare-list shorthand (unambiguous when len != 2)
                     else:
